@@ -7,6 +7,8 @@ mod rt;
 mod drv;
 mod tree;
 mod consts;
+mod pure;
+mod integ;
 
 use serde_json::{json, Value};
 use std::io::{BufRead, BufWriter, Write};
